@@ -95,6 +95,9 @@ pub enum Step {
     CheckUpgrade,
     /// spin for this many wall-clock microseconds (metrics lower bound)
     Busy(u64),
+    /// consume this many units of tokio's cooperative budget (128 per task poll): when the budget runs out the hook is
+    /// forced to yield at whatever budgeted operation comes next - a suspension point that exists in no source line
+    Coop(u64),
     Panic,
     CheckIdent,
 }
